@@ -27,6 +27,11 @@
 (*     date-time day + fraction of the day as start of EOMONTH/EDATE,      *)
 (*     quarters of months, days and years as arguments of DATE, EOMONTH,   *)
 (*     EDATE -- of which the functions use the whole part;                 *)
+(*   * a machine ("far") that walks one argument of DATE, EOMONTH, EDATE   *)
+(*     away from zero decade by decade (+-1, +-10, ... +-10^20, times a    *)
+(*     small mantissa) while the others are pinned: carrying is not        *)
+(*     confined to a few months or days, and whatever leaves the calendar  *)
+(*     is #NUM!, however far it leaves it;                                 *)
 (*   * Export, an always-true "invariant" that prints one JSON test        *)
 (*     vector per state (per month start for the calendar machine).        *)
 (*                                                                         *)
@@ -40,7 +45,8 @@
 EXTENDS Integers, Sequences, FiniteSets, TLC, Json
 
 CONSTANTS
-  Modes,        \* machines to run: subset of {"cal", "date", "shift", "time", "yf", "frac"}
+  Modes,        \* machines to run: subset of
+                \* {"cal", "date", "shift", "time", "yf", "frac", "far"}
   LastSerial,   \* where the calendar machine stops (2958465 for the real claim)
   DayStepsUntil,\* the calendar machine advances day by day below this serial and
                 \* by whole months from the next month start on (thorough tier:
@@ -63,8 +69,14 @@ CONSTANTS
   FracMonthPins, FracDayPins,   \* month / day numerators held while the other
                 \* argument walks over FracDen * ArgLo .. FracDen * ArgHi
   FracStarts,   \* start days of EOMONTH/EDATE, taken at every fraction of the day
-  FracShiftLo, FracShiftHi      \* month shifts (whole numbers) between which the
+  FracShiftLo, FracShiftHi,     \* month shifts (whole numbers) between which the
                 \* months argument walks in steps of 1 / FracDen
+  FarMants,     \* far arguments are +-mantissa * 10^exponent, mantissa from this set,
+  FarMaxExp,    \* exponent 0 .. FarMaxExp
+  FarYears,     \* year arguments of DATE held while the month or the day goes far
+  FarPins,      \* month / day arguments of DATE and months arguments of
+                \* EOMONTH/EDATE held while another argument goes far
+  FarStarts     \* start days of EOMONTH/EDATE held while the months go far
 
 VARIABLES
   mode,
@@ -73,10 +85,14 @@ VARIABLES
   sn, sk,                \* shift: start serial and number of months
   ts, th, tm, tsec,      \* time:  second of the day and its clock reading
   fa, fb, fbasis, fswap, \* yf:    the two dates, the basis, "arguments swapped"
-  fkind, fwalk, f1, f2, f3   \* frac: "DATE": year, month, day numerators;
+  fkind, fwalk, f1, f2, f3,  \* frac: "DATE": year, month, day numerators;
                          \*       "SHIFT": start day, months numerator, numerator of
                          \*       the fraction of the start day;  fwalk: "m" / "d" =
                          \*       the numerator that walks is f2 / f3
+  rk, ra, rb,            \* far:   which argument goes far -- "year" / "month" / "day":
+                         \*       DATE(V, ra, rb) / DATE(ra, V, rb) / DATE(ra, rb, V);
+                         \*       "shift" / "start": EOMONTH and EDATE (ra, V) / (V, ra)
+  rsg, rmt, rex          \*       V = rsg * rmt * 10^rex  (sign, mantissa, exponent)
 
 calVars   == <<n, y, m, d, wd>>
 dateVars  == <<ay, am, ad>>
@@ -84,7 +100,8 @@ shiftVars == <<sn, sk>>
 timeVars  == <<ts, th, tm, tsec>>
 yfVars    == <<fa, fb, fbasis, fswap>>
 fracVars  == <<fkind, fwalk, f1, f2, f3>>
-vars      == <<mode, calVars, dateVars, shiftVars, timeVars, yfVars, fracVars>>
+farVars   == <<rk, ra, rb, rsg, rmt, rex>>
+vars      == <<mode, calVars, dateVars, shiftVars, timeVars, yfVars, fracVars, farVars>>
 
 MaxSerial == 2958465        \* 9999-12-31, Excel's last date
 
@@ -220,10 +237,11 @@ DateFn(yr, mo, dy) ==
            \* the month argument carried to before January 1900 and the day
            \* argument carried back into range: not settled by the statement
            ELSE IF k < 1900 * 12 THEN {Anything}
-           \* month carried beyond December 9999, day carried back: the date
-           \* exists; an implementation refusing the intermediate year is
-           \* tolerated
-           ELSE IF k > 9999 * 12 + 11 THEN {Num(s), NumErr}
+           \* (a month carried beyond December 9999 and a day carried back
+           \* into the calendar: the result is in range, so it is that day --
+           \* "out-of-range *results* are #NUM!"; DATE(9999, 13, 0) is the
+           \* last day of December 9999 as DATE(y, m + 1, 0) is the last day
+           \* of month m everywhere else; see CarrySpelling)
            ELSE {Num(s)}
 
 --------------------------------------------------------------------------
@@ -283,6 +301,43 @@ EoMonthFracFn(mt, kn) == UNION {EoMonthFn(DayOfMoment(mt), kk) : kk \in Whole(kn
 EDateFracFn(mt, kn)   == UNION {EDateFn(DayOfMoment(mt), kk) : kk \in Whole(kn)}
 
 --------------------------------------------------------------------------
+(* Far arguments.  Nothing confines a month or day argument to a few       *)
+(* years: DATE(2000, 1, 31000) is a day of 2084, DATE(2000, 1, -40000) and *)
+(* EDATE(1, 1E+20) are #NUM!.  A far argument is V = sg * mt * 10^ex.  TLC *)
+(* has 32-bit integers: up to 10^FarExactExp the definitions above are     *)
+(* evaluated on V itself.  Beyond that (|V| >= 10^7) nothing is left to    *)
+(* compute: the calendar has fewer than 3 * 10^6 days and 10^5 months, the *)
+(* other arguments are pinned within a few years, and DATE is linear in    *)
+(* its day argument and monotone in its month argument (FarLinear), so a   *)
+(* result that has left the calendar (FarBeyond) only moves further away.  *)
+
+FarExactExp == 6
+FarValue(sg, mt, ex) == sg * mt * 10 ^ ex          \* ex <= FarExactExp only
+
+\* from this magnitude on the result has left the calendar whatever the
+\* pinned arguments are (a year beyond 9999; months: 8100 years have 97 200;
+\* days: the calendar has 2 958 466, the pinned month is within -40..60)
+FarThreshold(kind) == CASE kind = "year"  -> 10000
+                        [] kind = "day"   -> 3000000
+                        [] OTHER          -> 100000
+
+FarDateFn(kind, a, b, sg, mt, ex) ==
+  IF ex > FarExactExp THEN {NumErr}
+  ELSE LET v == FarValue(sg, mt, ex)
+       IN  CASE kind = "year"  -> DateFn(v, a, b)
+             [] kind = "month" -> DateFn(a, v, b)
+             [] kind = "day"   -> DateFn(a, b, v)
+
+\* fn: "EOMONTH" / "EDATE"
+ShiftOf(fn, s, k) == IF fn = "EOMONTH" THEN EoMonthFn(s, k) ELSE EDateFn(s, k)
+FarShiftFn(fn, kind, a, sg, mt, ex) ==
+  IF ex > FarExactExp
+  THEN IF kind = "shift" THEN {NumErr}              \* months far away
+       ELSE IF sg < 0 THEN {NumErr} ELSE {Anything} \* a start before / after the calendar
+  ELSE LET v == FarValue(sg, mt, ex)
+       IN  IF kind = "shift" THEN ShiftOf(fn, a, v) ELSE ShiftOf(fn, v, a)
+
+--------------------------------------------------------------------------
 (* HOUR / MINUTE / SECOND read the fraction of the day, rounded to the     *)
 (* nearest second, as a clock.  Time is kept in milliseconds of the day.   *)
 
@@ -325,6 +380,7 @@ IdleShift == sn = 0 /\ sk = 0
 IdleTime  == ts = 0 /\ th = 0 /\ tm = 0 /\ tsec = 0
 IdleYf    == fa = 0 /\ fb = 0 /\ fbasis = 0 /\ fswap = 0
 IdleFrac  == fkind = "-" /\ fwalk = "-" /\ f1 = 0 /\ f2 = 0 /\ f3 = 0
+IdleFar   == rk = "-" /\ ra = 0 /\ rb = 0 /\ rsg = 0 /\ rmt = 0 /\ rex = 0
 
 InitCal ==
   /\ mode = "cal"
@@ -334,7 +390,7 @@ InitCal ==
           /\ wd = 7                          \* Excel calls it a Saturday
      ELSE y = Parts(n)[1] /\ m = Parts(n)[2] /\ d = Parts(n)[3]
           /\ wd = WeekdayOf(n)
-  /\ IdleDate /\ IdleShift /\ IdleTime /\ IdleYf /\ IdleFrac
+  /\ IdleDate /\ IdleShift /\ IdleTime /\ IdleYf /\ IdleFrac /\ IdleFar
 
 \* quick tier only: once past DayStepsUntil and at a month start whose
 \* month is complete, the machine takes the whole month in one step
@@ -348,49 +404,49 @@ NextDay ==
      ELSE IF m < 12 THEN d' = 1 /\ m' = m + 1 /\ y' = y
      ELSE d' = 1 /\ m' = 1 /\ y' = y + 1
   /\ wd' = (wd % 7) + 1
-  /\ UNCHANGED <<mode, dateVars, shiftVars, timeVars, yfVars, fracVars>>
+  /\ UNCHANGED <<mode, dateVars, shiftVars, timeVars, yfVars, fracVars, farVars>>
 
 NextMonth ==                      \* = MonthLen(y, m) times NextDay
   /\ mode = "cal" /\ MonthJumps
   /\ n' = n + MonthLen(y, m) /\ d' = 1
   /\ IF m < 12 THEN m' = m + 1 /\ y' = y ELSE m' = 1 /\ y' = y + 1
   /\ wd' = ((wd - 1 + MonthLen(y, m)) % 7) + 1
-  /\ UNCHANGED <<mode, dateVars, shiftVars, timeVars, yfVars, fracVars>>
+  /\ UNCHANGED <<mode, dateVars, shiftVars, timeVars, yfVars, fracVars, farVars>>
 
 InitDate ==
   /\ mode = "date"
   /\ ay \in DateYears /\ ad = ArgLo
   /\ am \in (IF SplitChains /\ ay \in 0..9999 THEN ArgLo..ArgHi ELSE {ArgLo})
-  /\ IdleCal /\ IdleShift /\ IdleTime /\ IdleYf /\ IdleFrac
+  /\ IdleCal /\ IdleShift /\ IdleTime /\ IdleYf /\ IdleFrac /\ IdleFar
 
 NextDayArg ==                     \* DATE(y, m, d) -> DATE(y, m, d+1)
   /\ mode = "date" /\ ad < ArgHi
   /\ ad' = ad + 1 /\ UNCHANGED <<ay, am>>
-  /\ UNCHANGED <<mode, calVars, shiftVars, timeVars, yfVars, fracVars>>
+  /\ UNCHANGED <<mode, calVars, shiftVars, timeVars, yfVars, fracVars, farVars>>
 
 NextMonthArg ==                   \* ... -> DATE(y, m+1, ArgLo)
   /\ mode = "date" /\ ad = ArgHi /\ am < ArgHi
   /\ ay \in 0..9999    \* an illegal year is #NUM! whatever follows: one row
   /\ am' = am + 1 /\ ad' = ArgLo /\ UNCHANGED ay
-  /\ UNCHANGED <<mode, calVars, shiftVars, timeVars, yfVars, fracVars>>
+  /\ UNCHANGED <<mode, calVars, shiftVars, timeVars, yfVars, fracVars, farVars>>
 
 InitShift ==
   /\ mode = "shift"
   /\ sn \in ShiftStarts
   /\ sk \in (IF SplitChains THEN {k \in ShiftLo..ShiftHi : (k - ShiftLo) % 100 = 0}
              ELSE {ShiftLo})
-  /\ IdleCal /\ IdleDate /\ IdleTime /\ IdleYf /\ IdleFrac
+  /\ IdleCal /\ IdleDate /\ IdleTime /\ IdleYf /\ IdleFrac /\ IdleFar
 
 NextShift ==                      \* one more month
   /\ mode = "shift" /\ sk < ShiftHi
   /\ sk' = sk + 1 /\ UNCHANGED sn
-  /\ UNCHANGED <<mode, calVars, dateVars, timeVars, yfVars, fracVars>>
+  /\ UNCHANGED <<mode, calVars, dateVars, timeVars, yfVars, fracVars, farVars>>
 
 InitTime ==
   /\ mode = "time"
   /\ th \in (IF SplitChains THEN 0..23 ELSE {0})
   /\ ts = 3600 * th /\ tm = 0 /\ tsec = 0
-  /\ IdleCal /\ IdleDate /\ IdleShift /\ IdleYf /\ IdleFrac
+  /\ IdleCal /\ IdleDate /\ IdleShift /\ IdleYf /\ IdleFrac /\ IdleFar
 
 Tick ==                           \* the clock advances one second
   /\ mode = "time" /\ ts < 86399
@@ -398,23 +454,23 @@ Tick ==                           \* the clock advances one second
   /\ IF tsec < 59 THEN tsec' = tsec + 1 /\ tm' = tm /\ th' = th
      ELSE IF tm < 59 THEN tsec' = 0 /\ tm' = tm + 1 /\ th' = th
      ELSE tsec' = 0 /\ tm' = 0 /\ th' = th + 1
-  /\ UNCHANGED <<mode, calVars, dateVars, shiftVars, yfVars, fracVars>>
+  /\ UNCHANGED <<mode, calVars, dateVars, shiftVars, yfVars, fracVars, farVars>>
 
 InitYf ==
   /\ mode = "yf"
   /\ fa \in YfDays /\ fb \in YfDays /\ fa <= fb
   /\ fbasis = 0 /\ fswap = 0
-  /\ IdleCal /\ IdleDate /\ IdleShift /\ IdleTime /\ IdleFrac
+  /\ IdleCal /\ IdleDate /\ IdleShift /\ IdleTime /\ IdleFrac /\ IdleFar
 
 SwapDates ==                      \* YEARFRAC(a, b, .) -> YEARFRAC(b, a, .)
   /\ mode = "yf" /\ fswap = 0 /\ fa < fb
   /\ fa' = fb /\ fb' = fa /\ fswap' = 1 /\ UNCHANGED fbasis
-  /\ UNCHANGED <<mode, calVars, dateVars, shiftVars, timeVars, fracVars>>
+  /\ UNCHANGED <<mode, calVars, dateVars, shiftVars, timeVars, fracVars, farVars>>
 
 NextBasis ==
   /\ mode = "yf" /\ fswap = 0 /\ fbasis < 4
   /\ fbasis' = fbasis + 1 /\ UNCHANGED <<fa, fb, fswap>>
-  /\ UNCHANGED <<mode, calVars, dateVars, shiftVars, timeVars, fracVars>>
+  /\ UNCHANGED <<mode, calVars, dateVars, shiftVars, timeVars, fracVars, farVars>>
 
 \* where the walking numerator starts: at lo, with SplitChains at every 10th
 \* whole number as well (the runs merge)
@@ -428,7 +484,7 @@ InitFrac ==
            \/ fwalk = "d" /\ f2 \in FracMonthPins /\ f3 \in FracSeeds(ArgLo, ArgHi)
      \/ /\ fkind = "SHIFT" /\ f1 \in FracStarts /\ fwalk = "m"
         /\ f2 \in FracSeeds(FracShiftLo, FracShiftHi) /\ f3 \in 0..(FracDen - 1)
-  /\ IdleCal /\ IdleDate /\ IdleShift /\ IdleTime /\ IdleYf
+  /\ IdleCal /\ IdleDate /\ IdleShift /\ IdleTime /\ IdleYf /\ IdleFar
 
 FracHi == FracDen * (IF fkind = "DATE" THEN ArgHi ELSE FracShiftHi)
 
@@ -437,7 +493,22 @@ NextFrac ==                       \* the walking argument grows by 1 / FracDen
   /\ IF fwalk = "m" THEN f2 < FracHi /\ f2' = f2 + 1 /\ f3' = f3
                     ELSE f3 < FracHi /\ f3' = f3 + 1 /\ f2' = f2
   /\ UNCHANGED <<fkind, fwalk, f1>>
-  /\ UNCHANGED <<mode, calVars, dateVars, shiftVars, timeVars, yfVars>>
+  /\ UNCHANGED <<mode, calVars, dateVars, shiftVars, timeVars, yfVars, farVars>>
+
+InitFar ==
+  /\ mode = "far"
+  /\ \/ rk = "year"  /\ ra \in FarPins  /\ rb \in FarPins
+     \/ rk = "month" /\ ra \in FarYears /\ rb \in FarPins
+     \/ rk = "day"   /\ ra \in FarYears /\ rb \in FarPins
+     \/ rk = "shift" /\ ra \in FarStarts /\ rb = 0
+     \/ rk = "start" /\ ra \in FarPins  /\ rb = 0
+  /\ rsg \in {-1, 1} /\ rmt \in FarMants /\ rex = 0
+  /\ IdleCal /\ IdleDate /\ IdleShift /\ IdleTime /\ IdleYf /\ IdleFrac
+
+NextDecade ==                     \* the far argument moves ten times as far away
+  /\ mode = "far" /\ rex < FarMaxExp
+  /\ rex' = rex + 1 /\ UNCHANGED <<rk, ra, rb, rsg, rmt>>
+  /\ UNCHANGED <<mode, calVars, dateVars, shiftVars, timeVars, yfVars, fracVars>>
 
 Init == \/ "cal" \in Modes /\ InitCal
         \/ "date" \in Modes /\ InitDate
@@ -445,9 +516,10 @@ Init == \/ "cal" \in Modes /\ InitCal
         \/ "time" \in Modes /\ InitTime
         \/ "yf" \in Modes /\ InitYf
         \/ "frac" \in Modes /\ InitFrac
+        \/ "far" \in Modes /\ InitFar
 
 Next == NextDay \/ NextMonth \/ NextDayArg \/ NextMonthArg \/ NextShift \/ Tick
-        \/ SwapDates \/ NextBasis \/ NextFrac
+        \/ SwapDates \/ NextBasis \/ NextFrac \/ NextDecade
 
 Spec == Init /\ [][Next]_vars
 
@@ -466,6 +538,10 @@ TypeOK ==
                                             /\ f2 \in (FracDen * FracShiftLo)..(FracDen * FracShiftHi)
                                             /\ f3 \in 0..(FracDen - 1)
   /\ mode # "frac" => IdleFrac
+  /\ mode = "far" => /\ rk \in {"year", "month", "day", "shift", "start"}
+                     /\ rsg \in {-1, 1} /\ rmt \in FarMants /\ rmt \in 1..9
+                     /\ rex \in 0..FarMaxExp
+  /\ mode # "far" => IdleFar
 
 \* the closed form agrees with the successor machine at every day
 SerialClosedForm == mode = "cal" => DateSerial(y, m, d) = n
@@ -536,6 +612,15 @@ MonthArgStep == (mode = "date" /\ ad = 1 /\ Single(DateResult)
                  /\ Single(DateFn(ay, am + 1, 1))) =>
   LET ym == CarryMonth(EffYear(ay), am)
   IN  TheNumber(DateFn(ay, am + 1, 1)) - TheNumber(DateResult) = MonthLen(ym[1], ym[2])
+
+\* the spelling of a carry does not matter: a day written from the first
+\* of month m is the same day written from the first of month m + 1
+\* (DATE(y, m + 1, 0) is the last day of month m -- of December 9999 too)
+CarrySpelling == (mode = "date" /\ ay \in 0..9999) =>
+  LET ym == CarryMonth(EffYear(ay), am)
+      a  == DateFn(ay, am, ad)
+      b  == DateFn(ay, am + 1, ad - MonthLen(ym[1], ym[2]))
+  IN  (Anything \notin a /\ Anything \notin b) => a = b
 
 \* out of range is #NUM!, in range is a serial
 DateInRange == mode = "date" =>
@@ -613,6 +698,41 @@ FracStep == [][(mode = "frac" /\ f2 >= 0 /\ f3 >= 0
                 /\ TruncOf(f2') = TruncOf(f2) /\ TruncOf(f3') = TruncOf(f3))
                => FracResult' = FracResult]_vars
 
+(* Laws -- far arguments *)
+AbsOf(x) == IF x < 0 THEN -x ELSE x
+FarExact == rex <= FarExactExp
+FarV == FarValue(rsg, rmt, rex)
+FarIsDate == rk \in {"year", "month", "day"}
+FarDate    == FarDateFn(rk, ra, rb, rsg, rmt, rex)
+FarEoMonth == FarShiftFn("EOMONTH", rk, ra, rsg, rmt, rex)
+FarEDate   == FarShiftFn("EDATE", rk, ra, rsg, rmt, rex)
+
+\* once the far argument has passed the threshold the result has left the
+\* calendar; every value that is too large to be evaluated is past it
+FarBeyond == mode = "far" =>
+  /\ 10 ^ (FarExactExp + 1) >= FarThreshold(rk) /\ 10 ^ (FarExactExp + 1) > MaxSerial
+  /\ FarExact =>
+       IF rk = "start"
+       THEN /\ FarV < 0 => (FarEoMonth = {NumErr} /\ FarEDate = {NumErr})
+            /\ FarV > MaxSerial => (FarEoMonth = {Anything} /\ FarEDate = {Anything})
+       ELSE AbsOf(FarV) >= FarThreshold(rk) =>
+              IF FarIsDate THEN FarDate = {NumErr}
+              ELSE FarEoMonth = {NumErr} /\ FarEDate = {NumErr}
+  \* a serial day is returned only from inside the calendar
+  /\ FarIsDate => \A r \in FarDate : IsNumber(r) => r[2] \in 0..MaxSerial
+
+\* a decade further: DATE is linear in its day argument (one more day is
+\* one more serial, however many) and monotone in its month argument (a
+\* month is at least 28 days) -- beyond the calendar there is no way back
+FarLinear == [][(mode = "far" /\ rex' = rex + 1 /\ rex' <= FarExactExp) =>
+  LET v == FarV
+      w == FarValue(rsg, rmt, rex')
+  IN  /\ rk = "day" =>
+            RawSerial(ra, rb, w) - RawSerial(ra, rb, v) = w - v
+      /\ rk = "month" =>
+            IF w > v THEN RawSerial(ra, w, rb) - RawSerial(ra, v, rb) >= 28 * (w - v)
+                     ELSE RawSerial(ra, v, rb) - RawSerial(ra, w, rb) >= 28 * (v - w)]_vars
+
 --------------------------------------------------------------------------
 (* Test-vector export.  The calendar machine prints one line per month     *)
 (* start (d <= 1) and its last state; the harness expands the days in      *)
@@ -657,4 +777,10 @@ Export ==
                              edate   |-> EDateFracFn(Moment(f1, f3), f2),
                              year |-> YearFn(f1), month |-> MonthFn(f1),
                              day |-> DayFn(f1), weekday |-> WeekdayFn(f1)]))
+    [] mode = "far" ->
+         PrintT(ToJson([t |-> "far", kind |-> rk, a |-> ra, b |-> rb,
+                        sg |-> rsg, mt |-> rmt, ex |-> rex,
+                        date    |-> IF FarIsDate THEN FarDate ELSE {},
+                        eomonth |-> IF FarIsDate THEN {} ELSE FarEoMonth,
+                        edate   |-> IF FarIsDate THEN {} ELSE FarEDate]))
 =============================================================================
